@@ -1,7 +1,7 @@
 (* C02 — every frame-to-frame assignment is the global optimum (Crocker-Grier).
    Only statements closed by [exact]; proofs live in Proofs/. *)
 From Coq Require Import ZArith NArith List Permutation.
-From TP Require Import Model.Assign Model.Link Model.LinkCheck Model.Iterative Proofs.Iterative Model.MemQueue Proofs.MemQueue
+From TP Require Import Model.Assign Model.Link Model.LinkCheck Model.Iterative Proofs.Iterative Model.MemQueue Proofs.MemQueue Model.SubnetMerge Proofs.SubnetMerge
      Proofs.BnB Proofs.Opt Proofs.Cands Proofs.Comps Proofs.Connected Proofs.Step Proofs.Labels Proofs.Monitor.
 Import ListNotations.
 Open Scope Z_scope.
@@ -109,6 +109,56 @@ Print Assumptions C02_memory_queue.
 Theorem C02_memory_queue_init : forall mem ds, qinv mem (fst (init_state ds)) (q_init mem).
 Proof. exact qinv_init. Qed.
 Print Assumptions C02_memory_queue_init.
+
+(* (8) The subnet dictionary.  Subnets.reset / Subnets.compute / assign_subnet
+   (trackpy/linking/subnet.py) are modelled line by line in Model/SubnetMerge.v: a dictionary
+   id -> (source set, dest set) and a subnet attribute per point, updated by joining a point
+   to a subnet or merging two subnets and deleting one.  From reset(), visiting ANY sequence
+   of (source, dest) pairs never raises; two points end with the same subnet id exactly when
+   they are joined by a path of visited pairs; every dictionary entry is the whole class of
+   its id, without repetition; and therefore the code's grouping of the sources (and of the
+   destinations) is the grouping [components] on which C02_step_optimal and the
+   SubnetOversize clause are stated. *)
+Theorem C02_assign_subnet_total : forall nd es,
+  (forall s d, In (s, d) es -> (d < nd)%nat) ->
+  exists st, run_edges nd es = Some st /\ Inv nd es st.
+Proof. exact run_edges_spec. Qed.
+Print Assumptions C02_assign_subnet_total.
+
+Theorem C02_subnet_ids_are_connected_components : forall nd es st x y i,
+  Inv nd es st -> vsub st x = Some i -> (vsub st y = Some i <-> conn es x y).
+Proof. exact same_subnet_iff_connected. Qed.
+Print Assumptions C02_subnet_ids_are_connected_components.
+
+Theorem C02_subnet_entries : forall nd es st i v,
+  Inv nd es st -> sfind i (subs st) = Some v ->
+  (forall x, verts v x <-> vsub st x = Some i) /\ NoDup (fst v) /\ NoDup (snd v) /\ snd v <> [].
+Proof. exact subnet_entries. Qed.
+Print Assumptions C02_subnet_entries.
+
+Theorem C02_subnet_members : forall nd es st,
+  Inv nd es st ->
+  (forall d, (exists i, vsub st (inr d) = Some i) <-> (d < nd)%nat) /\
+  (forall s, (exists i, vsub st (inl s) = Some i) <-> exists d, In (s, d) es).
+Proof. exact subnet_members. Qed.
+Print Assumptions C02_subnet_members.
+
+Theorem C02_subnets_match_components : forall nd items es st,
+  NoDup (map fst items) -> edges_of items es -> Inv nd es st ->
+  (forall x y, In x items -> In y items -> reals (snd x) <> [] -> reals (snd y) <> [] ->
+     ((exists g, In g (components items) /\ In x g /\ In y g) <->
+      vsub st (inl (fst x)) = vsub st (inl (fst y)))) /\
+  (forall g x, In g (components items) -> In x g -> reals (snd x) <> [] ->
+     forall d, In d (gdests g) <-> vsub st (inr d) = vsub st (inl (fst x))).
+Proof. exact subnets_match_components. Qed.
+Print Assumptions C02_subnets_match_components.
+
+(* non-vacuity: two sources chained through a shared destination end in one subnet,
+   a far pair in another; destination 4 stays alone *)
+Example C02_subnet_example :
+  option_map canon (run_edges 5 [(0,0); (1,0); (1,1); (2,3); (7,2); (7,3)]%nat)
+  = Some [([0;1], [0;1]); ([2;7], [2;3]); ([], [4])]%nat.
+Proof. vm_compute. reflexivity. Qed.
 
 (* non-vacuity: a 3-source subnet whose optimum differs from greedy nearest-neighbour *)
 Example C02_example :
